@@ -31,17 +31,18 @@ ASSUMPTIONS = [
     'each n_body_tensors[key] has shape (n_qubits,)*len(key); keys contain only 0/1',
 ]
 OPEN_STATEMENTS = [
-    'basis_change_sound on Fock space (for unitary U the rotated tensor denotes the operator with rotated ladder operators, '
-    'so spectra are invariant) and composition rotate(R2) after rotate(R1) = rotate(R1 R2): proved is the formal-polynomial '
-    'form for arbitrary R, key order and mixed actions (basis_change_sound_formal: einsum = multilinear substitution); '
-    'multiplicativity of the Fock action, unitarity => CAR preserved, and composition are checked by the Spec oracle '
-    '(exact for signed/complex permutations and dyadic matrices) and numpy eigvalsh at 1e-9',
+    'spectrum invariance under rotate_basis by a unitary (composition is proved: basis_change_compose): '
+    'proved is basis_change_sound_fock (the rotated tensor denotes, in Module.End over Fock space, the operator with every '
+    'ladder operator replaced by the rotated one, any R) and that for unitary R the rotated ladder operators satisfy the CAR '
+    'again (rotated_ladder_car_unitary); not proved: that a CAR-preserving substitution is implemented by a unitary on Fock '
+    'space (hence equal spectra); '
+    'both checked by the Spec oracle (exact) and numpy eigvalsh at 1e-9',
     'get_interaction_operator / get_quadratic_hamiltonian / get_diagonal_coulomb_hamiltonian: no theorem (they compose '
     'normal_ordered, property C03, with a scatter loop); soundness and the round trip '
     'get_fermion_operator(convert(A)) == normal_ordered(A) are covered by correspondence + Spec oracle only',
-    'get_fermion_operator(PolynomialTensor) (tensor_denote_iter) and __getitem__: correspondence + Spec oracle only',
-    'get_majorana_operator / get_fermion_operator(MajoranaOperator) as algebra homomorphisms: proved for the generators '
-    '(all modes, all basis states); products and sums rely on C01 and are covered by the Spec oracle',
+    'get_fermion_operator(MajoranaOperator): proved for the generators (majorana_generator_sound); products and sums use '
+    'FermionOperator `*` and the pruning `+=` (exact regime) and are covered by the Spec oracle '
+    '(get_majorana_operator(FermionOperator) is proved at full strength: get_majorana_operator_sound)',
     'get_quad_operator / get_boson_operator: correspondence + Spec oracle only (hbar in {1/2, 2, 8})',
     'DOCIHamiltonian tensors vs qubit_operator: not modelled (no theorem, no correspondence)',
     'tensor_sub_hom holds only when the subtrahend keys are keys of the minuend (finding F08a: tensor_sub_spec states '
